@@ -13,7 +13,7 @@ theorem findIdx_bind_get {α : Type} (p : α → Bool) : ∀ (l : List α), (l.f
   | [] => rfl
   | x :: xs => by
     by_cases h : p x = true
-    · simp [List.findIdx?_cons, List.find?_cons, h]
+    · simp [List.findIdx?_cons, h]
     · have ih := findIdx_bind_get p xs
       simp only [Bool.not_eq_true] at h
       simp only [List.findIdx?_cons, h, List.find?_cons, Bool.false_eq_true, if_false]
@@ -125,7 +125,7 @@ theorem phase1Step_eq_p1 (S : Schema) (top : Bool) (recur : List DNode → List 
   have hst : ({ st with used := st.used } : St) = st := by cases st; rfl
   unfold phase1Step p1 phase1Plain
   simp only [Bool.not_true, Bool.and_false, Bool.false_eq_true, if_false, findMatch_true S bs a st.used hnd, hnu,
-    findIdx_bind_get, hst]
+    findIdx_bind_get]
   have hpe : List.find? (matchP S a) bs = partner S bs a := rfl
   rw [hpe]
   cases hp : partner S bs a with
@@ -219,7 +219,7 @@ theorem phase2Step_eq_p2 (S : Schema) (as bs : List DNode) (st : St) (b : DNode)
     phase2Step S true as bs st (b, j) = p2 S as st b := by
   have hst : ({ st with used := st.used } : St) = st := by cases st; rfl
   unfold phase2Step p2 partner
-  simp only [Bool.not_true, Bool.and_false, Bool.false_eq_true, if_false, findMatch_true S as b st.used hnd, hnu, hst]
+  simp only [Bool.not_true, Bool.and_false, Bool.false_eq_true, if_false, findMatch_true S as b st.used hnd, hnu]
   cases hf : as.findIdx? (matchP S b) with
   | none => rw [(findIdx_none_iff_find _ _).1 hf]
   | some i =>
